@@ -590,7 +590,10 @@ def check_text_api(fx, rep, rule, impl):
     # not looked at line by line (`if self.classes.is_empty() { return Ok(input.to_owned()) }`)
     def through_lines(st_):
         if L.get("synthetic"):
-            return any(e_[:3] == L["synthetic"] for e_ in st_.effects if e_[0] == "call")
+            # (the same consumer call on every path: its closure value differs only in what it captured on the way)
+            k_ = (L["synthetic"][1], L["synthetic"][2][0], L["synthetic"][2][1][1])
+            return any((e_[1], e_[2][0], e_[2][1][1]) == k_ for e_ in st_.effects
+                       if e_[0] == "call" and len(e_[2]) == 2 and e_[2][1][0] == "closure")
         return ("loopsum", L["index"]) in st_.effects
     early = [st_ for st_, v_ in oks if not through_lines(st_)]
     rep.check(rule, "%s/text/%s/returns" % (rule, impl), bool(ok_ret) and not early, loc=F.short_file(b["sp"]),
